@@ -80,6 +80,17 @@ impl BlobReader {
             .into();
 
         let record = Record { header, meta, data };
+        // No checksum covers the metadata: damaged bytes can still deserialize, to a map of another
+        // size. Such a record cannot be copied consistently (its header keeps the old meta size)
+        let actual_meta_size = bincode::serialized_size(&record.meta)?;
+        if actual_meta_size != record.header.meta_size() {
+            return Err(ToolsError::record_validation_error(format!(
+                "record meta size mismatch: header {}, deserialized {}",
+                record.header.meta_size(),
+                actual_meta_size
+            ))
+            .into());
+        }
         let record = record
             .validate()
             .map_err(|err| ToolsError::record_validation_error(err.to_string()))?;
